@@ -95,7 +95,18 @@ class Ctx:
             return depth < 4 and pp(path, depth)
 
         def wp(path, depth):
-            return wp0(path, depth) or fresh_pure(path, depth)
+            # (a closure called as a function - `step(byte, key, prev)` on an `impl Fn` argument of a
+            # monomorphic instance - is looked through when it is pure: its value is its body)
+            return wp0(path, depth) or fresh_pure(path, depth) or ("::{closure#" in path and depth < 4 and fn_closure(path))
+
+        import cfg as _cfg
+
+        def fn_closure(path):
+            b = fb.body(path)
+            if b is None or b.kind != "Closure" or _cfg.back_edges(b):
+                return False
+            t1 = b.local_ty(1)          # `&{closure}`: an `Fn` closure - it cannot write through its captures
+            return t1 is not None and t1.k == "ref" and not t1.d.get("mut")
 
         self.fresh_pure = fresh_pure
         self.wrap = Engine(fb, inline=wp)
